@@ -99,7 +99,7 @@ func (h *host) render(v goja.Value, depth int) string {
 	if !ok {
 		return "?" + v.String()
 	}
-	if depth > 4 {
+	if depth > 64 { // values are acyclic and nest at most once per operation; the reference renderer has no cap
 		return "…"
 	}
 	if o.ExportType() == typePromise {
